@@ -718,3 +718,48 @@ Proof.
   split; [eexists; split; vm_compute; reflexivity|].
   vm_compute. reflexivity.
 Qed.
+
+(* ---------------------------------------------------------------- explicit inputs *)
+
+Lemma lookup_pass_spec nd rd l : forall k k1,
+  lookup_pass nd rd k l = (k1, true) ->
+  k1 = (k + length l)%nat /\ forall i o, nth_error l i = Some o -> lookup_ok nd (rd (k + i)%nat) o = true.
+Proof.
+  induction l as [|o l IH]; intros k k1 H; cbn [lookup_pass] in H.
+  - injection H as <-. split; [cbn; lia|]. intros i o Ho. destruct i; discriminate.
+  - destruct (lookup_ok nd (rd k) o) eqn:E; [|discriminate].
+    destruct (IH _ _ H) as [-> Hl]. split; [cbn; lia|].
+    intros i o' Ho. destruct i as [|i]; cbn in Ho.
+    + injection Ho as <-. rewrite Nat.add_0_r. exact E.
+    + replace (k + S i)%nat with (S k + i)%nat by lia. apply Hl. exact Ho.
+Qed.
+
+(* a call with explicit inputs that succeeds has looked every input up successfully in each of
+   its passes: [rounds] read transactions per input *)
+Lemma manual_lookups_ok nd rd ins : forall rounds k k1,
+  manual_lookups nd rd (S rounds) k ins = (k1, true) ->
+  (k + length ins <= k1)%nat /\
+  forall o, In o ins -> exists j, (k <= j < k1)%nat /\ lookup_ok nd (rd j) o = true.
+Proof.
+  induction rounds as [|r IH]; intros k k1 H; cbn [manual_lookups] in H.
+  - destruct (lookup_pass nd rd k ins) as [k' [|]] eqn:Hp; [|discriminate]. injection H as <-.
+    destruct (lookup_pass_spec _ _ _ _ _ Hp) as [-> Hl]. split; [lia|].
+    intros o Ho. apply In_nth_error in Ho. destruct Ho as [i Hi].
+    exists (k + i)%nat. split; [|apply Hl; exact Hi].
+    assert (i < length ins)%nat by (apply nth_error_Some; congruence). lia.
+  - destruct (lookup_pass nd rd k ins) as [k' [|]] eqn:Hp; [|discriminate].
+    destruct (lookup_pass_spec _ _ _ _ _ Hp) as [-> _].
+    destruct (IH _ _ H) as [Hle Hall]. split; [lia|].
+    intros o Ho. destruct (Hall o Ho) as (j & Hj & Hok). exists j. split; [lia|exact Hok].
+Qed.
+
+(* while blocks are only CONNECTED (what can be looked up stays so), the inputs of a successful
+   call can all be looked up in the store of its last read transaction: one boundary *)
+Theorem manual_single_boundary_connects nd rd ins rounds k1 :
+  (forall j j' o, (j <= j')%nat -> lookup_ok nd (rd j) o = true -> lookup_ok nd (rd j') o = true) ->
+  manual_lookups nd rd (S rounds) 0 ins = (k1, true) ->
+  forall o, In o ins -> lookup_ok nd (rd (k1 - 1)%nat) o = true.
+Proof.
+  intros Hmono H o Ho. destruct (manual_lookups_ok _ _ _ _ _ _ H) as [_ Hall].
+  destruct (Hall o Ho) as (j & Hj & Hok). apply (Hmono j); [lia|exact Hok].
+Qed.
